@@ -141,7 +141,19 @@ def interleaved_variants(pid, scripts, rnd, cap=14):
             return ' '.join(x if i in keep else ren(x) for i, x in enumerate(t))
         B2 = [ren_line(l) for l in B]
         ua, ub = _units(A), _units(B2)
+        def quiet_tail(us):
+            # the trailing units that only look (queries, snapshots, oracles)
+            k = len(us)
+            while k > 0 and all(l.split()[0] in ('q', 'check', 'snap', 'echo', 'ids', 'sync') for l in us[k - 1] if l.split()):
+                k -= 1
+            return us[:k], us[k:]
         merged = []
+        if rnd_.random() < 0.5:
+            # phased: both built first, then the trailing queries of the two alternate with no mutation in between
+            (ha, ta), (hb, tb) = quiet_tail(ua), quiet_tail(ub)
+            for u in ha + hb: merged += u
+            ua, ub = ta, tb
+            stats['phased'] = stats.get('phased', 0) + 1
         i = j = 0
         while i < len(ua) or j < len(ub):
             take_a = j >= len(ub) or (i < len(ua) and rnd_.random() < 0.5)
